@@ -1,7 +1,207 @@
-import NutilsVerif.Model.C03
+import NutilsVerif.Proofs.C03Hist
+/-!
+# C03 — compiled functions are pure functions of their arguments across calls (theorems)
+
+Model: `Model/C03.lean` (the generated function as a state machine over module globals, a heap of buffers named by
+allocation site, array objects with numpy's per-object `writeable` flag, sticky exceptions).
+`checkH p O` is the decidable check the driver runs on the abstract program extracted from every REAL generated script
+(`O` = the origin table, computed by `tableOf`).  It decides syntactic sufficient forms of
+
+* **H1** what is cached does not depend on the arguments (and is final before a rerun statement reads it),
+* **H2** no statement executed on a rerun writes into a cached buffer or into an argument buffer,
+* **H3** no writable array object handed to the caller shares a cached buffer (read-only ones may: `setflags(write=False)`).
+
+`check_sound` shows that the semantic statements H1–H3 follow from `checkH`; the purity theorems hold for EVERY
+interpretation of the numpy operations, EVERY finite history of calls with arbitrary arguments (values, layouts, flags,
+conversions, missing entries) and arbitrary user writes into writable arrays returned earlier.
+-/
 namespace NutilsVerif.C03
 
-/-- placeholder while the proofs are being developed -/
-theorem iterate_zero {D : Type} (f : Nat → St D → St D) (st : St D) : iterate f 0 st = st := rfl
+/-! ## the hypotheses, semantically -/
+
+/-- H1: the constant part of the script never looks at the arguments -/
+def H1 (p : Prog) : Prop :=
+  ∀ {D : Type} (I : Interp D) (a1 a2 : Args D) (st : St D), exec I a1 .cache p.body st = exec I a2 .cache p.body st
+
+/-- H2: no run writes an argument buffer; a rerun writes no cached buffer -/
+def H2 (p : Prog) (O : Var → List Loc) : Prop :=
+  ∀ {D : Type} (I : Interp D) (args : Args D) (st : St D), OriginInv O st →
+    (∀ (m : Mode) (a : Nat), (exec I args m p.body st).heap (.arg a) = st.heap (.arg a)) ∧
+    (∀ l, cachedLoc p l = true → (exec I args .rerun p.body st).heap l = st.heap l)
+
+/-- H3: every array object handed out — by the first call or by any later call — is read-only or lives outside the
+cached buffers -/
+def H3 (p : Prog) (O : Var → List Loc) : Prop :=
+  ∀ {D : Type} (I : Interp D) (cd : Var → D × Bool) (dflt : D), (cacheSt I p cd dflt).err = none →
+    (∀ args, (exec I args .first p.body (enter p dflt (initSt p cd dflt) args)).err = none →
+      ∀ r ∈ (call I p dflt (initSt p cd dflt) args).2.refs, SafeRef (mkCtx p O) r) ∧
+    (∀ st args, CachedS (mkCtx p O) (cacheSt I p cd dflt) st →
+      ∀ r ∈ (call I p dflt st args).2.refs, SafeRef (mkCtx p O) r)
+
+/-- `checkH` is sound for H1–H3 -/
+theorem check_sound (p : Prog) (O : Var → List Loc) (h : checkH p O = true) : H1 p ∧ H2 p O ∧ H3 p O := by
+  have hH := checkH_unpack p O h
+  have k := classes_of _ hH.cls
+  refine ⟨?_, ?_, ?_⟩
+  · intro D I a1 a2 st
+    exact exec_cache_args I a1 a2 p.body st (chk_noArgCache _ _ _ _ _ hH.body)
+  · intro D I args st ho
+    refine ⟨fun m a => exec_argframe I args m (mkCtx p O) p.body st a (chk_wfO _ _ _ _ _ hH.body) ho, ?_⟩
+    intro l hl
+    exact exec_rerun_cframe I args (mkCtx p O) k p.body st l (chk_wfR _ _ _ _ _ hH.body) ho (by rwa [mkCtx_cloc])
+  · intro D I cd dflt hKe
+    exact ⟨fun args hok => (call_first I p O cd dflt hH hKe args hok).2,
+      fun st args hC => (call_rerun_safe I p O cd dflt hH hKe st hC args).2.2⟩
+
+/-! ## purity -/
+
+/-- **rerun_correct** (one call): on the cached state, a call with ANY arguments returns exactly what a freshly generated
+function returns for these arguments — value or exception — and leaves the cached state as it was -/
+theorem rerun_correct_call {D : Type} (I : Interp D) (p : Prog) (O : Var → List Loc) (cd : Var → D × Bool) (dflt : D)
+    (h : checkH p O = true) (hK : (cacheSt I p cd dflt).err = none) (st : St D)
+    (hC : CachedS (mkCtx p O) (cacheSt I p cd dflt) st) (args : Args D) :
+    (call I p dflt st args).2.res = fresh I p cd dflt args ∧
+    CachedS (mkCtx p O) (cacheSt I p cd dflt) (call I p dflt st args).1 :=
+  let r := call_rerun_safe I p O cd dflt (checkH_unpack p O h) hK st hC args
+  ⟨r.1, r.2.1⟩
+
+/-- **rerun_correct** (histories): from a cached state, for every finite sequence of calls with arbitrary arguments,
+interleaved with arbitrary user writes into writable arrays returned earlier, every call returned what a fresh function
+returns (induction over the history; `HInv` is the invariant on globals, held arrays and the log) -/
+theorem rerun_correct {D : Type} (I : Interp D) (p : Prog) (O : Var → List Loc) (cd : Var → D × Bool) (dflt : D)
+    (h : checkH p O = true) (hK : (cacheSt I p cd dflt).err = none) (h0 : HSt D) (hI : HInv I p O cd dflt h0)
+    (es : List (Event D)) :
+    HInv I p O cd dflt (runHist I p dflt h0 es) ∧
+    ∀ e ∈ (runHist I p dflt h0 es).log, e.2 = fresh I p cd dflt e.1 :=
+  let r := runHist_inv I p O cd dflt (checkH_unpack p O h) hK es h0 hI
+  ⟨r, r.log⟩
+
+/-- the first call establishes the invariant: if it raises nothing, the globals are afterwards the canonical cached state
+(`cacheSt`, the constant part alone — independent of the arguments of that first call) -/
+theorem first_call_caches {D : Type} (I : Interp D) (p : Prog) (O : Var → List Loc) (cd : Var → D × Bool) (dflt : D)
+    (h : checkH p O = true) (hK : (cacheSt I p cd dflt).err = none) (args : Args D)
+    (hok : (exec I args .first p.body (enter p dflt (initSt p cd dflt) args)).err = none) :
+    HInv I p O cd dflt (step I p dflt (startH p cd dflt) (.call args)) := by
+  obtain ⟨h1, h2⟩ := call_first I p O cd dflt (checkH_unpack p O h) hK args hok
+  refine ⟨h1, ?_, ?_⟩
+  · intro r hr
+    simp only [step, startH, List.append_nil] at hr
+    exact h2 r hr
+  · intro e he
+    simp only [step, startH, List.mem_cons, List.not_mem_nil, or_false] at he
+    rw [he]; rfl
+
+/-- **purity from the initial state**: for every history that starts with a call that raises nothing, every call of the
+history — with arbitrary arguments, after arbitrary user writes into returned writable arrays — returned what a freshly
+generated function returns.
+`_partial`: a history whose FIRST call raises is not covered (the model keeps the globals assigned before the `raise`, and
+showing that the next full first run ignores them needs a def-before-use argument that is not proved here; see
+`failed_first_call_keeps_first_run`: `first_run` stays True, so the next call re-executes the whole first-run branch). -/
+theorem purity_from_init_partial {D : Type} (I : Interp D) (p : Prog) (O : Var → List Loc) (cd : Var → D × Bool) (dflt : D)
+    (h : checkH p O = true) (hK : (cacheSt I p cd dflt).err = none) (args0 : Args D)
+    (hok : (exec I args0 .first p.body (enter p dflt (initSt p cd dflt) args0)).err = none) (es : List (Event D)) :
+    ∀ e ∈ (runHist I p dflt (startH p cd dflt) (.call args0 :: es)).log, e.2 = fresh I p cd dflt e.1 :=
+  (rerun_correct I p O cd dflt h hK _ (first_call_caches I p O cd dflt h hK args0 hok) es).2
+
+/-- a first call that raises leaves `first_run` True: nothing is considered cached -/
+theorem failed_first_call_keeps_first_run {D : Type} (I : Interp D) (p : Prog) (O : Var → List Loc) (cd : Var → D × Bool)
+    (dflt : D) (h : checkH p O = true) (args : Args D) (e : Err)
+    (herr : (exec I args .first p.body (enter p dflt (initSt p cd dflt) args)).err = some e) :
+    (call I p dflt (initSt p cd dflt) args).1.first = true := by
+  have hH := checkH_unpack p O h
+  have hm : modeOf (initSt p cd dflt) = .first := by simp [modeOf, initSt]
+  simp only [call, hm, leave]
+  rw [first_run_flag I args p.body _ hH.shape (by simp [initSt]), herr]; rfl
+
+/-- **returned_no_alias**: a user write into a buffer of a writable array returned earlier preserves the invariant
+(read-only results may alias cached data — that is what `setflags(write=False)` is for: they are not `permitted`) -/
+theorem returned_no_alias {D : Type} (I : Interp D) (p : Prog) (O : Var → List Loc) (cd : Var → D × Bool) (dflt : D)
+    (h : checkH p O = true) (hK : (cacheSt I p cd dflt).err = none) (h0 : HSt D) (hI : HInv I p O cd dflt h0)
+    (l : Loc) (d : D) : HInv I p O cd dflt (step I p dflt h0 (.uwrite l d)) :=
+  step_inv I p O cd dflt (checkH_unpack p O h) hK h0 hI (.uwrite l d)
+
+/-- every array object handed out is read-only or disjoint from the cached buffers -/
+theorem results_safe {D : Type} (I : Interp D) (p : Prog) (O : Var → List Loc) (cd : Var → D × Bool) (dflt : D)
+    (h : checkH p O = true) (hK : (cacheSt I p cd dflt).err = none) (st : St D)
+    (hC : CachedS (mkCtx p O) (cacheSt I p cd dflt) st) (args : Args D) :
+    ∀ r ∈ (call I p dflt st args).2.refs, r.w = true → cachedLoc p r.loc = false := by
+  intro r hr hw
+  rcases (call_rerun_safe I p O cd dflt (checkH_unpack p O h) hK st hC args).2.2 r hr with h1 | h1
+  · rw [hw] at h1; cases h1
+  · rwa [mkCtx_cloc] at h1
+
+/-- **args_untouched**: after a call — first run or rerun, returning or raising — every argument buffer holds exactly what
+the caller passed in -/
+theorem args_untouched {D : Type} (I : Interp D) (p : Prog) (O : Var → List Loc) (dflt : D) (h : checkH p O = true)
+    (st : St D) (ho : OriginInv O st) (args : Args D) (a : Nat) (g : Arg D) (ha : args a = some g) :
+    (call I p dflt st args).1.heap (.arg a) = g.data := by
+  rw [call_arg_frame I p O dflt (checkH_unpack p O h) st ho args a]
+  simp [enter, ha]
+
+/-- the origin invariant needed by `args_untouched` holds initially and in every cached state -/
+theorem origin_init {D : Type} (p : Prog) (O : Var → List Loc) (cd : Var → D × Bool) (dflt : D) (h : checkH p O = true) :
+    OriginInv O (initSt p cd dflt) :=
+  init_origin p O (classes_of _ (checkH_unpack p O h).cls) cd dflt
+
+/-! ## the hypotheses are satisfiable, and necessary (converse witnesses on the toy interpretation) -/
+
+/-- a script of the shape the generator emits: `v1 = f(c100)` cached, argument ingested, `v2 = g(v1, v3)` returned -/
+def pGood : Prog :=
+  { consts := [100], roconsts := [100], globals := [1],
+    body := .seq (.seq (.op .skip (.fresh 1 0 [100])) (.seq (.op .rerun (.getarg 3 0 0)) (.seq (.op .rerun (.fresh 2 0 [1, 3]))
+      (.op .skip (.setro 1))))) (.op .skip .clear),
+    ret := [2] }
+
+example : checkH pGood (tableOf pGood) = true := by decide
+
+def argsOf (l : List (Nat × Nat)) : Args Nat := fun a => (l.find? (·.1 == a)).map fun e => ⟨e.2, [], true, false⟩
+
+example : impure pGood (fun v => (v, true)) [.call (argsOf [(0, 5)]), .uwrite (.var 2) 777, .call (argsOf [(0, 6)]), .call (argsOf [(0, 5)])] = false := by
+  decide
+
+/-- H1 violated: the cached variable is computed from the argument (what `Guard.isconstant → True` would produce) -/
+def pBadH1 : Prog :=
+  { consts := [], roconsts := [], globals := [1],
+    body := .seq (.seq (.op .skip (.getarg 3 0 0)) (.seq (.op .skip (.fresh 1 0 [3])) (.seq (.op .rerun (.fresh 2 0 [1]))
+      (.op .skip (.setro 1))))) (.op .skip .clear),
+    ret := [2] }
+
+theorem witness_H1 : checkH pBadH1 (tableOf pBadH1) = false ∧
+    impure pBadH1 (fun v => (v, true)) [.call (argsOf [(0, 5)]), .call (argsOf [(0, 6)])] = true := by
+  constructor <;> decide
+
+/-- H2 violated: a rerun statement accumulates in place into the cached buffer -/
+def pBadH2 : Prog :=
+  { consts := [100], roconsts := [100], globals := [1],
+    body := .seq (.seq (.op .skip (.fresh 1 0 [100])) (.seq (.op .rerun (.getarg 3 0 0)) (.seq (.op .rerun (.write 1 0 [3]))
+      (.op .rerun (.fresh 2 0 [1]))))) (.op .skip .clear),
+    ret := [2] }
+
+theorem witness_H2 : checkH pBadH2 (tableOf pBadH2) = false ∧
+    impure pBadH2 (fun v => (v, true)) [.call (argsOf [(0, 5)]), .call (argsOf [(0, 5)])] = true := by
+  constructor <;> decide
+
+/-- H3 violated: the first call hands out a writable view of the cached variable created before its `setflags`
+(the shape of the open finding of the pinned tree) -/
+def pBadH3 : Prog :=
+  { consts := [100], roconsts := [100], globals := [1],
+    body := .seq (.seq (.op .skip (.fresh 1 0 [100])) (.seq (.op .rerun (.getarg 3 0 0)) (.seq (.op .rerun (.view 2 0 false 1))
+      (.op .skip (.setro 1))))) (.op .skip .clear),
+    ret := [2] }
+
+theorem witness_H3 : checkH pBadH3 (tableOf pBadH3) = false ∧
+    impure pBadH3 (fun v => (v, true)) [.call (argsOf [(0, 5)]), .uwrite (.var 1) 777, .call (argsOf [(0, 5)])] = true ∧
+    impure pBadH3 (fun v => (v, true)) [.call (argsOf [(0, 5)]), .call (argsOf [(0, 5)])] = false := by
+  refine ⟨?_, ?_, ?_⟩ <;> decide
+
+/-- dropping `setflags(write=False)`: reruns hand out the writable cached array itself -/
+def pNoSetflags : Prog :=
+  { consts := [100], roconsts := [100], globals := [1],
+    body := .seq (.seq (.op .skip (.fresh 1 0 [100])) (.op .rerun (.getarg 3 0 0))) (.op .skip .clear),
+    ret := [1] }
+
+theorem witness_setflags : checkH pNoSetflags (tableOf pNoSetflags) = false ∧
+    impure pNoSetflags (fun v => (v, true)) [.call (argsOf [(0, 5)]), .call (argsOf [(0, 5)]), .uwrite (.var 1) 777, .call (argsOf [(0, 5)])] = true := by
+  constructor <;> decide
 
 end NutilsVerif.C03
